@@ -127,6 +127,9 @@ func labelShapes(c jcase) {
 
 // run executes the case against the real handler and returns "" if the oracle is satisfied.
 func run(c jcase) (msg string, payloadLen int) {
+	if !c.direct && !lm.FormTakesAttrs(c.form) {
+		c.attrs = nil // the printf-style entry points carry no attributes
+	}
 	sink := &lm.Sink{}
 	h := logger.NewJsonHandler(sink, logger.NewOptions(logger.LevelDebug, false, c.addSource))
 	var exp []lm.EMember
